@@ -562,13 +562,13 @@ pub fn generate(rng: &mut Rng, tier: Tier, cases: &mut Vec<Case>) {
     // in [0, F] (Dinic leaves its phase loop after the first phase whose accumulated flow exceeds the bound)
     let n_bounded = match tier {
         Tier::Quick => 2400,
-        Tier::Thorough => 60000,
+        Tier::Thorough => 30000,
     };
     bounded_cases(rng, n_bounded, cases);
     // (viii) the same solver object run again (run / run_with_upper_bound): reported value and cut stay
     rerun_cases(rng, n_bounded / 2, cases);
     // (ix) high-degree nodes
-    hub_cases(rng, match tier { Tier::Quick => 72, Tier::Thorough => 3600 }, cases);
+    hub_cases(rng, match tier { Tier::Quick => 72, Tier::Thorough => 900 }, cases);
 }
 
 fn bounded_cases(rng: &mut Rng, count: usize, cases: &mut Vec<Case>) {
